@@ -200,6 +200,26 @@ func (s *State) Revert(header *core.Header, update *core.StateUpdate) error {
 		dirtyClasses[*hash] = nil // mark for deletion
 	}
 
+	// Classes registered together with the block for its deployed contracts (see Update)
+	// are not listed among the declared classes.
+	for _, hash := range update.StateDiff.DeployedContracts {
+		if _, ok := dirtyClasses[*hash]; ok {
+			continue
+		}
+
+		dc, err := s.Class(hash)
+		if errors.Is(err, db.ErrKeyNotFound) {
+			continue
+		}
+		if err != nil {
+			return err
+		}
+
+		if dc.At == blockNum {
+			dirtyClasses[*hash] = nil // mark for deletion
+		}
+	}
+
 	// Revert migrated class metadata: restore V1 casm hash in trie
 	for classHash := range update.StateDiff.MigratedClasses {
 		metadata, err := core.GetClassCasmHashMetadata(s.db.disk, &classHash)
